@@ -2,6 +2,7 @@
 
 from __future__ import annotations
 
+from math import isfinite
 from typing import Any, Dict, List, Optional, Tuple
 
 from pydantic import parse_obj_as
@@ -65,7 +66,11 @@ class NumValue(QuantitativeValue):
             if isinstance(v, (int, float)):
                 if cls.require_unit:
                     raise ValueError(f"Value '{v}' must have a unit!")
-                return tcls.construct(value=v, unitText=cls.infer_unit)
+                # (a bool is an int, nan and inf are floats - but no valid values)
+                val = parse_obj_as(Number, v)
+                if not isfinite(val):
+                    raise ValueError(f"Value '{v}' is not a finite number!")
+                return tcls.construct(value=val, unitText=cls.infer_unit)
 
             arr = None
             if isinstance(v, str):
